@@ -43,6 +43,16 @@ impl<T> VxIterFind<T> for [T] {
     open spec fn vx_items(&self) -> Seq<T> { self@ }
     #[verifier::external_body] fn vx_iter_find<F: Fn(&&T) -> bool>(&self, f: F) -> (r: Option<&T>) { self.iter().find(f) }
 }
+#[verifier::external_body]
+pub fn vx_into_iter_find<K, V, F: Fn(&(K, V)) -> bool>(m: std::collections::HashMap<K, V>, f: F) -> (r: Option<(K, V)>)
+    requires forall|k: K| #[trigger] m@.contains_key(k) ==> call_requires(f, (&(k, m@[k]),)),
+    ensures match r {
+        Some((k, v)) => m@.contains_key(k) && m@[k] == v && call_ensures(f, (&(k, v),), true),
+        None => forall|k: K| #[trigger] m@.contains_key(k) ==> call_ensures(f, (&(k, m@[k]),), false),
+    }
+{ m.into_iter().find(f) }
+// `a == b` on byte slices (vstd's PartialEq specification for slices does not reduce to view equality)
+#[verifier::external_body] pub fn vx_slice_eq(a: &[u8], b: &[u8]) -> (r: bool) ensures r == (a@ == b@) { a == b }
 pub assume_specification<T: PartialEq> [<[T]>::contains] (s: &[T], x: &T) -> (r: bool)
     ensures r == s@.contains(*x);
 // R4d: &[u8] -> [u8; N] where the caller knows the length (`.try_into().unwrap()`)
@@ -481,11 +491,25 @@ pub mod authenticator {
             //@ extract ahm impl HmacSecretCredentialSupport
             //@ extract ahm impl HmacSecretConfig
             //@   only hmac_secret_mc supports_no_uv
-            // which PRF inputs apply to a credential (select_salts is an iterator chain over a HashMap: assumed; this
-            // oracle names its result so that callers' contracts can mention it)
-            pub uninterp spec fn spec_select_salts(id: Seq<u8>, request: AuthenticatorPrfInputs) -> Option<(Seq<u8>, Option<Seq<u8>>)>;
+            // which PRF inputs apply to a credential (C09: "per credential"): an evalByCredential entry whose key is the
+            // credential id takes precedence over the top-level eval; `out` is the (first, second) pair of salts selected
+            pub open spec fn prf_vals(v: AuthenticatorPrfValues) -> (Seq<u8>, Option<Seq<u8>>) {
+                (v.first@, match v.second { Some(s) => Some(s@), None => None })
+            }
+            pub open spec fn has_cred_entry(id: Seq<u8>, request: AuthenticatorPrfInputs) -> bool {
+                request.eval_by_credential matches Some(m) && exists|k: crate::Bytes| #[trigger] m@.contains_key(k) && k.0@ == id
+            }
+            pub open spec fn sel_rel(id: Seq<u8>, request: AuthenticatorPrfInputs, out: Option<(Seq<u8>, Option<Seq<u8>>)>) -> bool {
+                if has_cred_entry(id, request) {
+                    out matches Some(v) && exists|k: crate::Bytes| #[trigger] request.eval_by_credential.unwrap()@.contains_key(k) && k.0@ == id
+                        && prf_vals(request.eval_by_credential.unwrap()@[k]) == v
+                } else {
+                    out == (match request.eval { Some(e) => Some(prf_vals(e)), None => None })
+                }
+            }
             //@ extract ahm fn calculate_hmac_secret
             //@ extract ahm fn select_salts
+            //@   rule R19
             //@ extract ahm impl Authenticator
             //@   rule R4d
         }
@@ -505,8 +529,8 @@ pub mod authenticator {
         // C09 at the CTAP level: a PRF output of an assertion is HMAC-SHA-256 keyed with the verification-gated secret
         // iff the user was verified, else the non-gated one, over the inputs selected for this credential
         pub open spec fn prf_get_rel(p: AuthenticatorPrfGetOutputs, id: Seq<u8>, stored: Option<StoredHmacSecret>, salts: AuthenticatorPrfInputs, uv: bool) -> bool {
-            stored is Some && hmac_secret::spec_select_salts(id, salts) is Some && ({
-                let st = stored.unwrap(); let sel = hmac_secret::spec_select_salts(id, salts).unwrap();
+            stored is Some && exists|sel: (Seq<u8>, Option<Seq<u8>>)| #[trigger] hmac_secret::sel_rel(id, salts, Some(sel)) && ({
+                let st = stored.unwrap();
                 let key = if uv { st.cred_with_uv@ } else { st.cred_without_uv.unwrap()@ };
                 &&& (!uv ==> st.cred_without_uv is Some)
                 &&& p.results.first@ == spec_hmac(key, sel.0)
